@@ -19,4 +19,17 @@ CHECKS = {
          "value of the finite per-type domains: decode(encode(v)) is compared with v including concrete classes. Exhaustive within the "
          "stated bounds; nothing is sampled.",
     note="trusts vmc/space.py value domains and vmc/ref.py `same`; unions are in scope only where the reference reading maps the value's encoding back to it; CPython 3.12.1 only"),
+ "C02": dict(engine="E1 schema-space", design_ref="6/C02",
+    technique="bounded exhaustive enumeration of schemas x dialects x entry points x values against an independent reference interpreter",
+    text="For every schema of the bounded grammar, every value of the per-type domains, the default dialect and the three format dialects "
+         "(observed through the documented identity encoder and as default_dialect), through codec, mixin and nested entry points: the "
+         "output is compared node by node (exact types, exact key/element/field order) with ref.encode, checked to contain only basic "
+         "types plus the dialect's native types, and passed to json.dumps. Exhaustive within the stated bounds.",
+    note="trusted base: vmc/ref.py (written from README.md, no library code), vmc/space.py value domains; one open finding (TOML null fields) is attributed by a narrow scope predicate"),
+ "C03": dict(engine="E1 schema-space", design_ref="6/C03",
+    technique="bounded exhaustive enumeration of schemas x foreign inputs (pool substitutions, structural mutations) against a three-valued reference decoder",
+    text="For every schema of depth <= 2 (3 in thorough) every input of Enc(S) u Mut(S) (whole-document pool, every single-position substitution "
+         "by each of 21 pool members, drop/add key, shorten/lengthen list) is decoded by the library and by ref.decode: defined result => equal and "
+         "exact-class conforming; reference rejects => library raises; unspecified => only conformance. Exhaustive over the stated input sets.",
+    note="trusted base: vmc/ref.py three-valued decode (Value/Reject/Unspecified) and vmc/foreign.py; two open findings (Union None fallback pinned by tests, NamedTuple default IndexError swallow)"),
 }
